@@ -110,6 +110,15 @@ def drv_a(s):
     return pieces, again
 
 
+def drv_recall(s):
+    """the caller may edit the returned list; a later call on the same text must not be affected"""
+    first = N.split_multiple_persons_names(s)
+    keep = list(first)
+    first.clear()
+    first.append("edited")
+    return keep, N.split_multiple_persons_names(s)
+
+
 def drv_c(s):
     bal = balanced(s)
     if not bal:
@@ -180,15 +189,15 @@ def drv_a1(s):
     return N.split_multiple_persons_names(s), None
 
 
-def sym_input(eng, L, prefix):
+def sym_input(eng, L, prefix, sigma=None):
     """string of length L whose first len(prefix) characters are pinned (one task per prefix)"""
-    return mk([eng.sym_char(f"c{i}", prefix[i] if i < len(prefix) else SIGMA) for i in range(L)])
+    return mk([eng.sym_char(f"c{i}", prefix[i] if i < len(prefix) else (sigma or SIGMA)) for i in range(L)])
 
 
-def task_a(L, prefix="", idem=True, tmpl=None):
+def task_a(L, prefix="", idem=True, tmpl=None, sigma=None):
     eng = Engine()
     rec = Recorder(eng)
-    s = sym_input(eng, L, prefix) if tmpl is None else tmpl_input(eng, tmpl[0], tmpl[1], prefix)
+    s = sym_input(eng, L, prefix, sigma) if tmpl is None else tmpl_input(eng, tmpl[0], tmpl[1], prefix)
     L = len(chars(s))
     cs = chars(s)
     pos_of = {c.var.idx: i for i, c in enumerate(cs)} if L else {}
@@ -274,6 +283,31 @@ def tmpl_input(eng, l1, l2, prefix):
     return mk(cs)
 
 
+def task_recall(L, sigma):
+    eng = Engine()
+    rec = Recorder(eng)
+    s = eng.sym_str("c", L, sigma)
+    E = eng.I.models.eq_simple
+
+    def rp(m):
+        t = eng.model_str(m, s)
+        try:
+            keep, again = drv_recall(t)
+        except Exception as e:  # noqa
+            return {"input": t, "observed": f"raised {type(e).__name__}: {e}", "expected": "pieces"}
+        if keep == again and native_conservation(t, keep):
+            return None
+        return {"input": t, "observed": {"first call": keep, "second call after editing the first result": again}, "expected": "the same pieces"}
+    worlds = eng.run(drv_recall, [s])
+    for W in worlds:
+        if W.exc is not None:
+            rec.require(W, True, "no-exception", rp)
+            continue
+        keep, again = W.result
+        rec.require(W, b_not(E(keep, again)), "calls-are-independent", rp)
+    return rec.result(L=L, worlds=len(worlds))
+
+
 def task_c(L, prefix="", tmpl=None):
     eng = Engine()
     eng.interpret_also(ref_split, balanced)
@@ -343,6 +377,12 @@ def main():
         spread("conserve+idem", task_a, L, LI)
     for L in range(LC, -1, -1):
         spread("exact", task_c, L, LC)
+    # a character whose lower-casing changes the string length (U+0130), and calls repeated after the caller edited a result
+    SIGMA_I = " andA\u0130x{"
+    chk.bounds["length-changing case family"] = f"all strings of length 0..7 over {SIGMA_I!r} (conservation, idempotence, repeated call)"
+    for L in range(7, -1, -1):
+        chk.add_task(f"recall-L{L}", task_recall, L=L, sigma=SIGMA_I)
+        chk.add_task(f"conserve-I-L{L}", task_a, L=L, sigma=SIGMA_I, idem=(L <= 6))
     # separator-centred family: X1 ' and ' X2
     LT = 4 if chk.tier == "quick" else 5
     chk.bounds["separator-centred family"] = f"X1 + ' and ' + X2, |X1|,|X2| <= {LT} over {SIGMA_T!r} (all three obligations)"
